@@ -176,6 +176,11 @@ func dspan(start, end int) string {
 func uspan(side string, start, end int) string {
 	if end-start == 1 {
 		return side + strconv.Itoa(start)
+	} else if end == start {
+		// An empty range is identified by the line before it, as GNU diff
+		// writes it and as patch reads it (for example "-3,0" is the empty
+		// range between lines 3 and 4).
+		return fmt.Sprintf("%s%d,0", side, start-1)
 	}
 	return fmt.Sprintf("%s%d,%d", side, start, end-start)
 }
